@@ -205,7 +205,7 @@ impl<'a> MtHelpers<'a> {
                         DistrT: #sylvia ::cw_multi_test::Distribution,
                         IbcT: #sylvia ::cw_multi_test::Ibc,
                         GovT: #sylvia ::cw_multi_test::Gov,
-                        #mt_app : Executor< #custom_msg >,
+                        #mt_app : #sylvia ::cw_multi_test::Executor< #custom_msg >,
                         #where_predicates
                 {
                     #( #exec_methods )*
@@ -382,7 +382,7 @@ impl<'a> MtHelpers<'a> {
 
             impl<'proxy, 'app, #(#generic_params,)* MtApp> InstantiateProxy<'proxy, 'app, #(#generic_params,)* MtApp>
                 where
-                    MtApp: Executor< #custom_msg >,
+                    MtApp: #sylvia ::cw_multi_test::Executor< #custom_msg >,
                     #where_predicates
             {
                 pub fn with_funds(self, funds: &'proxy [#sylvia ::cw_std::Coin]) -> Self {
